@@ -475,7 +475,14 @@ func vfC04Run(c vfC04Case, ctx *vfCtx) *vfViolation {
 				everStored[k] = true
 			}
 		case "remove":
-			if err := idx.Remove(*NewMetadataNodeWithID(op.ID, nil)); err != nil {
+			// Remove takes a node: with its metadata (as a caller that still holds the document would
+			// pass it) or with the id only
+			var rmMeta map[string]interface{}
+			if doc, ok := m.docs[op.ID]; ok && (i+int(op.ID))%2 == 0 {
+				rmMeta = vfMetaToGo(doc)
+				ctx.Class("remove_with_full_node")
+			}
+			if err := idx.Remove(*NewMetadataNodeWithID(op.ID, rmMeta)); err != nil {
 				if _, ok := m.docs[op.ID]; ok {
 					return vfFail("op %d: Remove(%d) of a live document failed: %v", i, op.ID, err)
 				}
